@@ -168,4 +168,194 @@ theorem inv_removeBases (st st' : St) (h : Inv st) (p : Path) (bs : List Path)
         · rw [St.mem_eq, R.other a q hq, hcont, ← St.mem_eq] at hh
           exact hh
 
+/-! ## the name-conflict check of `add_bases` / `new_space` -/
+
+theorem mem_allNames (st : St) (a : Attr) (l : List Path) (n : String) :
+    n ∈ st.allNames a l ↔ ∃ b ∈ l, (st.mem a b n).isSome = true := by
+  unfold St.allNames
+  simp only [List.mem_flatMap]
+  constructor
+  · rintro ⟨b, hb, hn⟩
+    refine ⟨b, hb, ?_⟩
+    rw [St.mem_eq, mget_isSome_iff]
+    unfold St.cont
+    cases hf : st.find b with
+    | none => rw [hf] at hn; cases hn
+    | some s => rw [hf] at hn; exact hn
+  · rintro ⟨b, hb, hn⟩
+    refine ⟨b, hb, ?_⟩
+    rw [St.mem_eq, mget_isSome_iff] at hn
+    unfold St.cont at hn
+    cases hf : st.find b with
+    | none => rw [hf] at hn; cases hn
+    | some s => rw [hf] at hn; exact hn
+
+theorem disjoint_iff (xs ys : List String) : disjoint xs ys = true ↔ ∀ x ∈ xs, x ∉ ys := by
+  unfold disjoint
+  simp only [List.all_eq_true, Bool.not_eq_true', List.contains_eq_mem, decide_eq_false_iff_not]
+
+/-- the names a re-derived space has are names of its linearisation before the re-derivation -/
+theorem names_in_allNames {st1 s2 : St} {ds : List Path} (R : Rederived st1 s2 ds) (d : Path)
+    (hd : d ∈ ds) (hdi : d ∈ st1.ids) (a : Attr) (n : String) (h : (s2.mem a d n).isSome = true) :
+    n ∈ st1.allNames a (d :: st1.tail d) := by
+  rw [mem_allNames]
+  rw [R.names a d n hd hdi] at h
+  rcases h with h | h
+  · refine ⟨d, by simp, ?_⟩
+    unfold St.defd at h
+    cases hmm : st1.mem a d n with
+    | none => rw [hmm] at h; cases h
+    | some _ => rfl
+  · cases hf : st1.firstDef a (st1.tail d) n with
+    | none => rw [hf] at h; cases h
+    | some e =>
+      obtain ⟨h1, h2⟩ := firstDef_some st1 a _ n e.1 e.2 hf
+      refine ⟨e.1, List.mem_cons_of_mem _ h1, ?_⟩
+      unfold St.defd at h2
+      cases hmm : st1.mem a e.1 n with
+      | none => rw [hmm] at h2; cases h2
+      | some _ => rfl
+
+/-- what `noConflict` gives for a re-derived space -/
+theorem disj_of_noConflict {st1 s2 : St} {ds : List Path} (R : Rederived st1 s2 ds) (d : Path)
+    (hd : d ∈ ds) (hdi : d ∈ st1.ids) (childs : List String)
+    (hnc : st1.noConflict (d :: st1.tail d) childs = true) :
+    (∀ n, (s2.mem .cells d n).isSome = true → s2.mem .refs d n = none) ∧
+    (∀ n ∈ childs, s2.mem .cells d n = none ∧ s2.mem .refs d n = none) := by
+  unfold St.noConflict at hnc
+  simp only [Bool.and_eq_true, disjoint_iff] at hnc
+  obtain ⟨⟨h1, h2⟩, h3⟩ := hnc
+  constructor
+  · intro n hc
+    cases hr : s2.mem .refs d n with
+    | none => rfl
+    | some _ =>
+      exfalso
+      exact h1 n (names_in_allNames R d hd hdi .cells n hc)
+        (names_in_allNames R d hd hdi .refs n (by rw [hr]; rfl))
+  · intro n hn
+    constructor
+    · cases hr : s2.mem .cells d n with
+      | none => rfl
+      | some _ => exact absurd hn (h2 n (names_in_allNames R d hd hdi .cells n (by rw [hr]; rfl)))
+    · cases hr : s2.mem .refs d n with
+      | none => rfl
+      | some _ => exact absurd hn (h3 n (names_in_allNames R d hd hdi .refs n (by rw [hr]; rfl)))
+
+theorem mem_dedupLast (l : List Path) (x : Path) : x ∈ dedupLast l ↔ x ∈ l := by
+  unfold dedupLast
+  simp [List.mem_eraseDups]
+
+/-! ## `addBases` -/
+
+theorem of_not_not_true {b : Bool} (h : ¬ (!b) = true) : b = true := by
+  cases b <;> simp_all
+
+theorem inv_addBases (st st' : St) (h : Inv st) (p : Path) (bs : List Path)
+    (hop : st.addBases p bs = some st') : Inv st' := by
+  unfold St.addBases at hop
+  split at hop
+  · cases hop
+  · rename_i hhas
+    simp only at hop
+    split at hop
+    · cases hop
+    · rename_i hmro
+      split at hop
+      · cases hop
+      · rename_i hconf
+        simp only [Option.some.injEq] at hop
+        subst hop
+        generalize hst1 : st.upd p (fun s =>
+          { s with bases := List.filter (fun b => !(dedupLast bs).contains b) s.bases ++ dedupLast bs }) = st1
+          at hmro hconf
+        have hbsall : ∀ b ∈ bs, b ∈ st.ids := by
+          intro b hb
+          have : bs.all st.has = true := by
+            cases hx : bs.all st.has with
+            | true => rfl
+            | false => rw [hx] at hhas; simp at hhas
+          rw [← has_iff_mem_ids]
+          exact List.all_eq_true.mp this b hb
+        have hids : st1.ids = st.ids := by rw [← hst1]; exact ids_upd st p _ (fun _ => rfl)
+        have hlen : st1.spaces.length = st.spaces.length := by rw [← hst1]; exact length_upd st p _
+        have hcont : ∀ a q, st1.cont a q = st.cont a q := by
+          intro a q; rw [← hst1]
+          exact cont_upd_bases st p (fun l => l.filter (fun b => !(dedupLast bs).contains b) ++ dedupLast bs) a q
+        have hbases : ∀ q, st1.basesOf q =
+            if q = p ∧ p ∈ st.ids then
+              (st.basesOf p).filter (fun b => !(dedupLast bs).contains b) ++ dedupLast bs
+            else st.basesOf q := by
+          intro q; rw [← hst1]
+          exact basesOf_upd_bases st p (fun l => l.filter (fun b => !(dedupLast bs).contains b) ++ dedupLast bs) q
+        have hwf1 : WF st1 := by
+          refine ⟨by rw [hids]; exact h.wf.nodup, ?_, all_mro_isSome st1 hmro, fun a q => by
+            rw [hcont]; exact h.wf.keys a q, by rw [hids]; exact h.wf.tree⟩
+          intro q b hb
+          rw [hids]
+          rw [hbases] at hb
+          split at hb
+          · simp only [List.mem_append, List.mem_filter] at hb
+            rcases hb with hb | hb
+            · exact h.wf.bases p b hb.1
+            · exact hbsall b ((mem_dedupLast bs b).mp hb)
+          · exact h.wf.bases q b hb
+        have htail : ∀ q ∈ st1.ids, q ∉ p :: st1.subs p → st1.tail q = st.tail q := by
+          intro q hqi hq
+          simp only [List.mem_cons, not_or] at hq
+          have hpt : p ∉ st1.tail q := not_mem_tail_of_not_sub p q hqi hq.1 hq.2
+          symm
+          apply tail_eq_of_mro_transfer st1 st q (hwf1.mro_all q) _ (by omega)
+          intro x hx
+          rw [hbases]
+          have : x ≠ p := by
+            intro e; subst e
+            simp only [List.mem_cons] at hx
+            rcases hx with hx | hx
+            · exact hq.1 hx.symm
+            · exact hpt hx
+          simp [this]
+        have R := rederived_updateAll st1 hwf1.keys (p :: st1.subs p)
+        refine ⟨hwf1.of_shape R.shape R.keys,
+          good_rebase st st1 h hwf1 (fun a q _ => hcont a q) _ htail, ?_⟩
+        have hchild : ∀ q, (st1.updateAll (p :: st1.subs p)).childNames q = st.childNames q := by
+          intro q; rw [R.shape.childNames, childNames_eq, childNames_eq, hids]
+        have hglob : (st1.updateAll (p :: st1.subs p)).globals = st.globals := by
+          rw [R.shape.globals, ← hst1]; rfl
+        have hconf' : ∀ d ∈ p :: st1.subs p, d ∈ st1.ids →
+            st1.noConflict (d :: st1.tail d) (st1.childNames d) = true := by
+          intro d hd _
+          have hc := of_not_not_true hconf
+          have := List.all_eq_true.mp hc d hd
+          rw [hwf1.mro_all d] at this
+          exact this
+        have hold : ∀ a q n, q ∉ p :: st1.subs p →
+            (st1.updateAll (p :: st1.subs p)).mem a q n = st.mem a q n := by
+          intro a q n hq
+          rw [St.mem_eq, R.other a q hq, hcont, ← St.mem_eq]
+        have hch1 : ∀ q, st1.childNames q = st.childNames q := by
+          intro q; rw [childNames_eq, childNames_eq, hids]
+        refine ⟨?_, ?_, ?_⟩
+        · intro q n hc
+          by_cases hq : q ∈ p :: st1.subs p
+          · by_cases hqi : q ∈ st1.ids
+            · exact (disj_of_noConflict R q hq hqi _ (hconf' q hq hqi)).1 n hc
+            · exact St.mem_of_not_mem _ .refs q n (by rw [R.shape.ids]; exact hqi)
+          · rw [hold .cells q n hq] at hc
+            rw [hold .refs q n hq]
+            exact h.disj.cr q n hc
+        · intro q n hn
+          rw [hchild] at hn
+          by_cases hq : q ∈ p :: st1.subs p
+          · by_cases hqi : q ∈ st1.ids
+            · exact (disj_of_noConflict R q hq hqi _ (hconf' q hq hqi)).2 n (by rw [hch1]; exact hn)
+            · exact ⟨St.mem_of_not_mem _ .cells q n (by rw [R.shape.ids]; exact hqi),
+                St.mem_of_not_mem _ .refs q n (by rw [R.shape.ids]; exact hqi)⟩
+          · rw [hold .cells q n hq, hold .refs q n hq]
+            exact h.disj.child q n hn
+        · intro n hn
+          rw [hglob] at hn
+          rw [hchild]
+          exact h.disj.glob n hn
+
 end MxModel.SM
